@@ -1265,7 +1265,18 @@ pub fn run(report: &mut Report, replay: Option<&str>) {
                     let as_recorded = w["output_lines_of"].as_object().map(|o| o.iter().all(|(m, l)|
                         markers.iter().any(|(k, line)| k == m && Some(*line as u64) == l.as_u64()))).unwrap_or(true);
                     if as_recorded {
-                        report.known_finding(id, &what);
+                        if f["status"] == "fixed" {
+                            // a repaired finding excuses nothing: failing again is a regression
+                            report.violation(Violation {
+                                kind: "oracle".into(),
+                                check: "fixed-finding-regressed".into(),
+                                what: format!("{} (fixed by {}): {}", id, f["commit"], what),
+                                input: f["witness"].clone(),
+                                failing_input_found: true,
+                            });
+                        } else {
+                            report.known_finding(id, &what);
+                        }
                     } else {
                         report.violation(Violation {
                             kind: "finding-changed".into(),
@@ -1285,7 +1296,18 @@ pub fn run(report: &mut Report, replay: Option<&str>) {
                 Ok((out, _)) => match marker_failure(code, &out, shift, config.contains("compute_expression")) {
                     Some(what) => {
                         if w["output_now"].as_str().map(|o| o == out).unwrap_or(true) {
-                            report.known_finding(id, &what);
+                            if f["status"] == "fixed" {
+                                // a repaired finding excuses nothing: failing again is a regression
+                                report.violation(Violation {
+                                    kind: "oracle".into(),
+                                    check: "fixed-finding-regressed".into(),
+                                    what: format!("{} (fixed by {}): {}", id, f["commit"], what),
+                                    input: f["witness"].clone(),
+                                    failing_input_found: true,
+                                });
+                            } else {
+                                report.known_finding(id, &what);
+                            }
                         } else {
                             report.violation(Violation {
                                 kind: "finding-changed".into(),
